@@ -1393,6 +1393,9 @@ impl CanonicalizeContext {
 				return mathml;
 			}
 			let base_children = base.children();
+			if base_children.is_empty() {
+				return mathml;		// all the children were deleted when they were cleaned (e.g., mphantoms)
+			}
 			let i_last_base = base_children.len()-1;
 			let last_child = as_element(base_children[i_last_base]);
 			if last_child.attribute(SPLIT_TOKEN).is_none() {
